@@ -11,9 +11,12 @@ EXPLANATION = ("R02.1 for every swap edge (emitting step -> vAMM swap -> reply s
                "plumbing and the event-attribute mapping are all extracted from the code); R02.2 whole close, full liquidation and "
                "the first leg of a reversal swap out exactly position.size.value in the position's own direction and remove / zero the "
                "position; every success path of a swap reply stores or removes the position; R02.3 the attribute keys and `type` "
-               "values the engine parses are the ones the vAMM swap / funding handlers emit.")
-NOT_DECIDED = ("assumes the stored invariant 'size > 0 iff direction == AddToAmm' of positions (established by the same tables for "
-               "positions created through the analysed paths); nothing numeric is involved beyond operand identity.")
+               "values the engine parses are the ones the vAMM swap / funding handlers emit; R02.4 reduce is chosen only when the "
+               "position's spot value exceeds the order; R02.5 the direction stored with a changed size derives from the side that signs "
+               "the change wherever the size grows (a zero-size record's direction is arbitrary) and is kept only where the size shrinks, "
+               "so 'size > 0 iff direction == AddToAmm' is an inductive invariant of live records.")
+NOT_DECIDED = ("nothing numeric is involved beyond operand identity; the invariant is inductive over the analysed reply paths only "
+               "(records written by other code would be reported by R10.1 / R02.2).")
 
 VAMM = "margined_vamm"
 LONG, SHORT = "long", "short"
